@@ -218,13 +218,22 @@ theorem step_progress (s s' : Sh) (σ : St) (t : Tok) (next : Option Tok) (consu
               have hfs : cur.fs = cur.pre ++ baseFrames (some n) := by rw [Lvl.fs, hbase]
               have hopn : has n.op.ty T.pairStart = true := hgood.frames.ok (Frame.opn n) (by rw [hfs]; simp [baseFrames])
               have hm : (o.ty == shl1 n.op.ty) = true := by rw [hc1, hpair.closer]; simp
-              obtain ⟨v', hclose, _, hvcl, _⟩ :=
+              obtain ⟨v', hclose, _, hvcl, hvty, hvcan⟩ :=
                 close_core s σ consumed cur par stk' hinv o n psc hbase hparrep hpargood h2 hm hc2
                   (by rcases hc3 with h | h
                       · exact Or.inl h
                       · exact Or.inr (by simpa using h))
+              have hcok : sc.inE = true → has o.ty T.parentheses = true → isTypeNode v' = true → sc.castOk = true := by
+                intro hE hpo hT
+                have hT' : (s.content == .oneType) = true := by simpa using hvty.mp hT
+                have hcnd : (o.ty == sc.closerTy && s.pendingQ == 0 && (!s.needOperand || s.content == .empty)) = true := by
+                  simp only [Bool.and_eq_true, beq_iff_eq, Bool.or_eq_true, Bool.not_eq_true']
+                  exact ⟨⟨hc1, hc2⟩, hc3⟩
+                cases hck : sc.castOk with
+                | true => rfl
+                | false => simp [hcnd, hE, hpo, hT', hck] at hsh
               obtain ⟨out', ops', par', hatt, _⟩ :=
-                attach_core par psc n o sc σ.cur.before v' (isTypeNode v') hparrep hpargood hpair hopn hm hvcl rfl
+                attach_core par psc n o sc σ.cur.before v' (isTypeNode v') hparrep hpargood hpair hopn hm hvcl rfl hvcan hcok
               rw [step_close_eq σ o next psc pstack h1' h2 hσstack, hclose]
               simp only [hatt]
               exact ⟨_, rfl⟩
@@ -401,8 +410,15 @@ theorem parse_accepts (ts : List Tok) (hshape : CShape ts = true) (hlex : Lexed 
       obtain ⟨_, hmo, _⟩ := hmd
       have hred : ∀ f ∈ cur.pre, f.reducible = true :=
         questCount_zero_root cur.pre hgood.noOpn (by rw [← hfs, ← hinv.pending, hpend])
-      obtain ⟨v, _, _, _, _, hv3, _⟩ := reduce_all σf.prev cur.pre hred (by rw [← hfs]; exact hgood.frames)
-        cur.top (by rw [← hfs]; exact hmo) hgood.topOk
+      have hcan : ∀ e, cur.top = some e → canonB e = true ∧ ∀ f, cur.pre.head? = some f → f.accepts (rootPrec e) = true := by
+        intro e he
+        obtain ⟨c1, c2⟩ := top_accepted hgood e he
+        refine ⟨c1, fun f hf => c2 f (by rw [hfs]; exact hf) ?_⟩
+        rcases hmo with ⟨_, h⟩ | ⟨h, _⟩
+        · exact h f (by rw [hfs]; exact hf)
+        · rw [h] at he; simp at he
+      obtain ⟨v, _, _, _, _, _, hv3, _⟩ := reduce_all σf.prev cur.pre hred (by rw [← hfs]; exact hgood.frames)
+        cur.top (by rw [← hfs]; exact hmo) hgood.topOk hcan
       have hfin : finish σf = .ok v := by
         unfold finish
         rw [hrep.1, hrep.2, hfs]
